@@ -307,8 +307,14 @@ func TestDrv_C17(t *testing.T) {
 						addErr = fmt.Errorf("panic: %v", p)
 					}
 				}()
+				var slot vegeta.Result
 				for k, i := range ord {
-					if addErr = pl.Add(&all[i]); addErr != nil {
+					res := &all[i]
+					if oi%2 == 1 { // the decode loop of a caller that keeps one Result variable for every record
+						slot = all[i]
+						res = &slot
+					}
+					if addErr = pl.Add(res); addErr != nil {
 						return
 					}
 					// a snapshot rendered while results are still arriving must not change what the final plot shows
